@@ -276,6 +276,19 @@ class SimProcess:
         time.time_ns = lambda: int(fake_time() * 1e9)
         os.getpid = lambda: pid
         self._clock.install()
+        # explicit hash() of str/bytes is part of the hash-seed dimension (dict/set internals are not reachable this
+        # way; the real child interpreters cover those)
+        import builtins
+        self._saved_hash = builtins.hash
+        real_hash = builtins.hash
+        hkey = str(self.knobs.get("set_key") or "default-order")
+        if not self.knobs.get("real_set_order"):
+            def seeded_hash(obj):
+                if type(obj) in (str, bytes):
+                    data = obj.encode("utf-8", "surrogatepass") if isinstance(obj, str) else obj
+                    return int.from_bytes(hashlib.sha256(hkey.encode() + b"\0" + data).digest()[:8], "little", signed=True)
+                return real_hash(obj)
+            builtins.hash = seeded_hash
         self._saved_env = None
         env = self.knobs.get("environ")
         if env:
@@ -284,6 +297,8 @@ class SimProcess:
         return self
 
     def __exit__(self, *a):
+        import builtins
+        builtins.hash = self._saved_hash
         self._clock.uninstall()
         random._urandom, os.urandom, time.time, time.time_ns, os.getpid = self._saved_fns
         if self._saved_env:
